@@ -151,9 +151,11 @@ class DocEngine:
                    ("add_file", 2.5), ("save", 12 * cfg["p_save"] if self.n_saves < cfg["max_saves"] else 0),
                    ("reopen", (6 * cfg["p_reopen"]) if self._reopenable() else 0)]
         if self.prop in ("C04", "C03"):
-            weights += [("clone_swap", 1), ("merge_styles", 1 if self.prop == "C04" else 0), ("save_other", 2 if self.shadow else 0)]
+            nm = len(getattr(self, "_merged_srcs", []))
+            weights += [("clone_swap", 1), ("merge_styles", (1.2 if nm == 0 else (3 if nm < 3 else 0)) if self.prop == "C04" else 0), ("save_other", 2 if self.shadow else 0),
+                        ("add_extra", 1.5 if self.prop == "C04" else 0)]
         if self.sut.src["kind"] == "folder" and self.prop in ("C03", "C04", "C11"):
-            weights += [("env_touch_source", 1.5)]
+            weights += [("env_touch_source", 1.5 if not (self.prop == "C03" and st.over) else 4)]
         if self.prop in ("C10", "C03"):
             weights += [("set_part_many", 2.5 if (self.prop == "C10" and self.twin is None) else 0.8)]
         if self.prop == "C10":
@@ -203,6 +205,8 @@ class DocEngine:
             op["n"] = n
             if kind == "xml":
                 op["name"] = rng.choice(["content.xml", "styles.xml", "meta.xml", "settings.xml"], "spname")
+                if self.prop in ("C03", "C10") and rng.chance(0.35, "prolog"):
+                    op["prolog"] = True
             elif kind == "bin_existing":
                 cands = sorted(x for x in st.names() if not ds.is_xml_part(x) and x != "mimetype" and not x.endswith("/") and x != ds.RDF)
                 if not cands:
@@ -284,6 +288,9 @@ class DocEngine:
         elif name == "env_touch_source":
             files = sorted(x for x in st.base if not x.endswith("/"))
             op["name"] = rng.choice(files, "touchname") if files else "mimetype"
+            hot = sorted(x for x in files if x in st.over or x in st.touched)
+            if hot and rng.chance(0.6, "touchhot"):
+                op["name"] = rng.choice(hot, "touchhotname")  # a file whose part the history set / parsed in memory
             op["dt2"] = rng.choice([0.0, 1.0, 2.0, -1.0], "dt2")
         elif name == "set_part_many":
             op["k"] = rng.choice([2, 5, 12, 16, 20, 30], "many_k")
@@ -301,6 +308,15 @@ class DocEngine:
             op["observe_other"] = False
         if name == "merge_styles":
             op["src"] = "sample:" + rng.choice(["lpod_styles.odt", "span_style.odt", "md_style.odt", "example.odt", "background.odp", "example.odp", "frame_image.odp"], "msrc")
+            prev = getattr(self, "_merged_srcs", [])
+            if prev and rng.chance(0.6, "merge_again"):
+                op["src"] = rng.choice(prev, "msrc_prev")  # the same source merged once more
+        if name == "add_extra":
+            # an extra file put into the package by hand: set_part + Manifest.add_full_path (public API),
+            # small name space so that the same part is updated and registered again
+            op["name"] = "Extra/" + rng.choice(["e0.bin", "e1.bin", "sub/e2.bin"], "xname")
+            op["n"] = n
+            op["media"] = rng.choice(["", "", "application/octet-stream"], "xmedia")
         return op
 
     def _gen_rich_para(self, rng, n):
@@ -386,8 +402,11 @@ class DocEngine:
             s["existing"] = rng.choice(idx, "existing")
         if s["target"] in ("existing", "inplace", "path") and rng.chance(0.3, "backup"):
             s["backup"] = True
-        if prop in ("C03", "C04", "C10", "C13"):
+        if prop in ("C03", "C10", "C13"):
             s["pretty"] = False
+        elif prop == "C04":
+            # the package inspector does not compare XML text: pretty saves are in
+            s["pretty"] = rng.choice([None, False, False, True], "pretty")
         else:
             s["pretty"] = rng.choice([None, True, False], "pretty")
         if rng.chance(0.15, "chdir"):
@@ -1232,7 +1251,13 @@ class DocEngine:
             root.append(etree.Comment(f"set_part {n}"))
             if self.prop == "C11":
                 root.set(xmlref.q("office:version"), "1.%d" % (2 + n % 2))  # (a change the element/attribute comparison sees)
-            data = etree.tostring(root, xml_declaration=True, encoding="UTF-8")
+            if op.get("prolog"):
+                # document-level nodes other producers write: a licence comment before the root
+                # element, a processing instruction after it
+                root.addprevious(etree.Comment(f" licence {n} "))
+                root.addnext(etree.ProcessingInstruction("sim-trailer", f"n={n}"))
+                self.flags.add("xml_part_with_prolog")
+            data = etree.tostring(root.getroottree(), xml_declaration=True, encoding="UTF-8")
         else:
             data = _blob(n)
         if self.sut.src["kind"] == "folder":
@@ -1636,6 +1661,24 @@ class DocEngine:
             if n not in st.names() and doc.container._Container__parts[n] is not None:
                 st.over[n] = doc.container._Container__parts[n]
         self.flags.add("merged_styles")
+        self._merged_srcs = getattr(self, "_merged_srcs", []) + [op["src"]]
+        if self._merged_srcs.count(op["src"]) > 1:
+            self.flags.add("merged_same_source_again")
+        self.n_edits += 1
+        return []
+
+    def _op_add_extra(self, op):
+        doc, st = self.sut.doc, self.sut.store
+        name, data = op["name"], _blob(op["n"])
+        res, exc = self._call(lambda: (doc.set_part(name, data), doc.manifest.add_full_path(name, op["media"])), "add_extra")
+        self._outcome = f"add_extra:{'exc' if exc else 'ok'}"
+        if exc is not None:
+            return [Violation(self.prop, "raises", "add_extra", self._feats(), type(exc).__name__, str(exc))]
+        if name in st.names():
+            self.flags.add("extra_part_registered_again")
+        st.set_part(name, data)
+        st.touched.add(ds.MANIFEST)
+        self.flags.add("extra_part")
         self.n_edits += 1
         return []
 
@@ -1830,7 +1873,8 @@ class DocEngine:
             optional = {k for k, v in art["expected"].items() if v is None}
             problems = ds.compare_package(pkg, exp, optional)
             for kind, det in problems:
-                vs.append(Violation("C03", kind, "save", feats + ["part:" + det.split(":")[0]] if kind == "part-differs" else feats, None, det))
+                f2 = feats + ["part:" + det.split(":")[0]] if kind == "part-differs" else (feats + ["empty_dir_entry"] if det.endswith("/") else feats)
+                vs.append(Violation("C03", kind, "save", f2, None, det))
                 return vs
             vs += self._oracle_reopen_equal(art, feats)
         elif prop == "C04" and pk == "zip":
